@@ -15,11 +15,11 @@ def main():
     props = sys.argv[2:] or meta["breaks"]
     if sh(f"git -C {REPO} status --porcelain --untracked-files=no").stdout.strip():
         print("/repo has uncommitted changes; refusing"); sys.exit(2)
-    r = sh(f"git -C {REPO} apply {d/'patch.diff'}")
-    if r.returncode != 0: print("patch does not apply:", r.stderr); sys.exit(2)
-    out = {}
     import shutil, tempfile
     keep = tempfile.mkdtemp(prefix="evidence_keep_", dir="/var/tmp"); shutil.copytree(ROOT / "evidence", keep + "/evidence")   # evidence of the unchanged tree must survive a seeded run
+    r = sh(f"git -C {REPO} apply {d/'patch.diff'}")
+    if r.returncode != 0: print("patch does not apply:", r.stderr); shutil.rmtree(keep); sys.exit(2)
+    out = {}
     try:
         for p in props:
             t0 = time.time()
